@@ -77,6 +77,14 @@ def main():
             res.notes.append("development run: build/audit skipped")
         common.bootstrap_repo()
         try:
+            # a runaway allocation in the code under test becomes a MemoryError inside this process instead of the
+            # kernel killing the check (which would look like a broken check, exit 137)
+            import resource
+            lim = 24 << 30
+            resource.setrlimit(resource.RLIMIT_AS, (lim, lim))
+        except Exception:
+            pass
+        try:
             mod.run(res, a.tier, build_ok)
         except Infra:
             raise
